@@ -321,7 +321,15 @@ func printTyped(g *ast.Grammar) (string, error) {
 		case *ast.StringTokenDecl:
 			fmt.Fprintf(&b, "%s = \"%s\";\n", v.Name, v.Value)
 		case *ast.RegexTokenDecl:
-			fmt.Fprintf(&b, "%s = /%s/;\n", v.Name, v.Regex)
+			// the tree holds the expansion of a predefined name; an expansion that contains the pattern delimiter
+			// ($COMMENT) can only be written back by its name
+			written := "/" + v.Regex + "/"
+			for _, name := range gen.PredefNames {
+				if gen.PredefTexts[name] == v.Regex {
+					written = name
+				}
+			}
+			fmt.Fprintf(&b, "%s = %s;\n", v.Name, written)
 		case *ast.RuleDecl:
 			s, err := rhs(v.RHS, false)
 			if err != nil {
